@@ -48,7 +48,7 @@ def lvl(name, n):
 def metrics_einsums(draw, n_min=1, n_max=1, max_vars=3, allow_partition=True):
     """a cascade of simple product Einsums with explicit loop orders and spacetime for every Einsum"""
     n = draw(st.integers(n_min, n_max))
-    kind = draw(st.sampled_from(["plain"] * 5 + ["affine", "flatten", "lf3", "lf3"])) if n_min == 1 else "plain"
+    kind = draw(st.sampled_from(["plain"] * 5 + ["affine", "flatten", "flatten", "lf3", "lf3"])) if n_min == 1 else "plain"
     if kind == "lf3":
         # three tensors co-iterated at one rank (leader-follower intersection of three fibers, any of them leading)
         pl = gen.plain
@@ -106,6 +106,8 @@ def metrics_einsums(draw, n_min=1, n_max=1, max_vars=3, allow_partition=True):
             sp_ = spec["spacetime"]["Z"]["space"]
             spec["spacetime"]["Z"]["time"] = [r for r in lo if r not in sp_]
             spec["rank_order"] = {}
+            if "occupancy" not in repr(spec["partitioning"]):
+                spec["hint"] = {"merger": True}       # a merger in front of the statically flattened tensor, if it needs a swizzle
             return spec, dict(c.get("sizes") or {})
     if n == 1 and draw(st.booleans()):
         spec = draw(gen.spec_plain(max_terms=1, allow_take=False, allow_output_only=False, allow_scalars=False,
@@ -179,6 +181,9 @@ def hardware_for(draw, spec, configs=("accel",), force=None):
         isect_type = "leader-follower"
     has_seq = draw(st.integers(0, 2)) == 0
     has_merger = draw(st.integers(0, 2)) == 0
+    if not has_merger and spec.get("partitioning") and "occupancy" not in repr(spec["partitioning"]):
+        has_merger = draw(st.integers(0, 3)) > 0       # mergers in front of statically partitioned / flattened tensors
+    has_merger = has_merger or bool(hint.get("merger"))
     has_reg = draw(st.integers(0, 2)) == 0
     mrg_inputs = draw(st.sampled_from([2, 64, "inf"]))
     mrg_radix = draw(st.sampled_from([2, 64, "inf"]))
@@ -331,15 +336,25 @@ def hardware_for(draw, spec, configs=("accel",), force=None):
                     cand.append((r, hs))
             if cand:
                 chosen = list(draw(st.permutations(cand)))[:draw(st.sampled_from([1, 2, 2]))]
+                # two levels of one partitioned rank, each with its own leader
+                pairs = [(x, y) for x in cand for y in cand if x[0] != y[0] and x[0].rstrip("0123456789") == y[0].rstrip("0123456789")
+                         and x[0] not in hinted and y[0] not in hinted]
+                distinct = False
+                if pairs and draw(st.booleans()):
+                    chosen = list(draw(st.sampled_from(pairs)))
+                    distinct = True
                 bl = []
                 for r, hs in chosen:
                     b = {"rank": r}
                     if isect_type == "leader-follower":
                         # (for an index-math rank the leader must be the tensor that owns the rank)
-                        b["leader"] = draw(st.sampled_from(hint.get("leaders", {}).get(r, hs)))
+                        opts = list(hint.get("leaders", {}).get(r, hs))
+                        if distinct and bl and len(opts) > 1 and bl[-1].get("leader") in opts:
+                            opts.remove(bl[-1]["leader"])
+                        b["leader"] = draw(st.sampled_from(opts))
                     bl.append(b)
                 entry.append({"component": names["isect"], "bindings": bl})
-        if has_merger and draw(st.integers(0, 2)) > 0:
+        if has_merger and (hint.get("merger") or draw(st.integers(0, 2)) > 0):
             # a merger models the swizzle of one input tensor from its stored order to the loop-concordant order
             # (single swap merges of unpartitioned tensors only: that is all the compiler implements)
             cand = []
@@ -354,7 +369,8 @@ def hardware_for(draw, spec, configs=("accel",), force=None):
                     continue
                 cand.append((t, init, list(rs)))
             if cand:
-                t, init, final = draw(st.sampled_from(cand))
+                special = [c_ for c_ in cand if sorted(c_[1]) != sorted(decl[c_[0]])]
+                t, init, final = draw(st.sampled_from(special if special and draw(st.integers(0, 3)) > 0 else cand))
                 entry.append({"component": names["mrg"], "bindings": [{"tensor": t, "init-ranks": init, "final-ranks": final}]})
         if has_seq and lo and draw(st.booleans()):
             rs = draw(gen.subset(lo, min_size=1))
